@@ -895,10 +895,16 @@ func ttlLeafs(v interface{}, segs []string, out *[]interface{}) {
 		for _, el := range x {
 			if d, ok := el.(bson.D); ok {
 				ttlLeafs(d, segs, out)
+			} else if _, nested := el.(bson.A); nested {
+				// an array directly inside an array along the path: outside the core domain of
+				// §8.2 (MongoDB does not descend, lungo's path walk does) — no verdict
+				*out = append(*out, ttlOutOfDomain{})
 			}
 		}
 	}
 }
+
+type ttlOutOfDomain struct{}
 
 func ttlOracle(pre, post *lungo.Catalog, nowMs int64) (removedBad, keptBad string) {
 	for _, h := range sortedHandles(pre) {
@@ -924,7 +930,7 @@ func ttlOracle(pre, post *lungo.Catalog, nowMs int64) (removedBad, keptBad strin
 			}
 		}
 		for _, d := range ns.Documents.List {
-			expired := false
+			expired, ood := false, false
 			for _, t := range ttls {
 				var leafs []interface{}
 				ttlLeafs(*d, strings.Split(t.field, "."), &leafs)
@@ -932,7 +938,13 @@ func ttlOracle(pre, post *lungo.Catalog, nowMs int64) (removedBad, keptBad strin
 					if dt, ok := l.(primitive.DateTime); ok && int64(dt) < t.cutoff {
 						expired = true
 					}
+					if _, o := l.(ttlOutOfDomain); o {
+						ood = true
+					}
 				}
+			}
+			if ood && !expired {
+				continue
 			}
 			if expired && still[d] {
 				keptBad = h.String() + " " + vj.Enc(*d)
